@@ -22,7 +22,7 @@ Fixpoint mentions (sub s : string) : bool :=
 Definition src_nextctx : bool :=
   negb ser_writes_cdata && next_stores_eof &&
   match next_closed_checks with
-  | [a; b; r] => mentions "dec.cData.Err != nil" a && mentions "dec.ctx.Err()" b && mentions "io.EOF" r
+  | [a; b; r] => String.eqb a "dec.cData.Err" && String.eqb b "dec.ctx.Err()" && String.eqb r "io.EOF"
   | _ => false
   end.
 
